@@ -220,4 +220,13 @@ for (h, w) in ((7, 9), (4, 4), (10, 5), (1, 6), (2, 2), (2, 1)):
     lazy('copy_ broadcast', lambda: evaluate(y2, b, X, {}), lambda: Y2)
     check('unflatten-movedim-reshape', evaluate(ops.reshape(L._movedim(ops.reshape(ops.cat((x, x * 2), 1), [nb, 2, c, h, w]), 1, 3), [nb, c, 2 * h, w]), b, X, {}),
           torch.cat((Xt, Xt * 2), 1).unflatten(1, (2, c)).movedim(1, 3).reshape(nb, c, 2 * h, w))
+    if h >= 4 and w >= 4:
+        y3 = x * 1
+        Y3 = Xt.clone()
+        y3[:, :, 1:3, 1:4] = x[:, :, 0:2, 0:3] * 5
+        Y3[:, :, 1:3, 1:4] = Xt[:, :, 0:2, 0:3] * 5
+        check('rectangle overwrite', evaluate(y3, b, X, {}), Y3)
+        y3[:, :, ::2, 1::2] = x[:, :, :(h + 1) // 2, :w // 2]
+        Y3[:, :, ::2, 1::2] = Xt[:, :, :(h + 1) // 2, :w // 2]
+        check('strided overwrite', evaluate(y3, b, X, {}), Y3)
 print('primitive cases', n, 'mismatches', bad, 'declined by the model', unmodelled)
